@@ -8,6 +8,20 @@ VERIF = os.path.dirname(os.path.dirname(os.path.abspath(__file__)))
 ALL = [f"C{i:02d}" for i in range(1, 21)]
 
 CHECKS = {
+    "C16": dict(
+        category="exploration",
+        technique="bounded-exhaustive enumeration of payloads x header layouts x chunk schedules on the real run() loop, independent framer",
+        text=("Bounded-exhaustive enumeration: every string up to a length bound over one character per encoding class is "
+              "written through the real write_response/write_error/send_notification and recovered by an independent "
+              "reader; message streams from an independent writer (3 header layouts, raw and escaped bodies) are fed to the "
+              "real LangServer.run() through a scripted raw stream under every single cut, every pair of cuts and "
+              "byte-by-byte delivery, and the handler must see exactly the messages sent; every path up to a segment bound "
+              "over a path-character alphabet must round-trip through path_to_uri/path_from_uri and client spellings."),
+        note=("Trusted: the independent framer in vf/driver.py and Python's json/urllib. Unicode is represented by one "
+              "character per UTF-8/UTF-16 encoding class; cut schedules are bounded at 2 cuts (3 on one stream in the "
+              "thorough tier) plus per-byte delivery; POSIX paths only."),
+        design="DESIGN.md §4 C16",
+    ),
     "C02": dict(
         category="model_checking",
         technique="explicit-state BFS over edit histories on the real apply_change/didChange, string reference model",
